@@ -5,5 +5,5 @@ CONSTANTS
   Universe = "full"
 VIEW View
 INVARIANTS InvOneActive
-PROPERTIES PropIssue PropSerial PropRootSetAtomic
+PROPERTIES PropIssue PropSerial PropRootSetAtomic PropReconf
 CHECK_DEADLOCK FALSE
